@@ -21,6 +21,7 @@ RULE = (
     "every split point, each side fed whole and sample-by-sample, a+b and b+a, every 3-way split as (a+b)+c and a+(b+c), and (a+b) followed by pushing the rest of the stream into the sum. "
     "Non-trivial = terminal states reached through >= 2 chunks, and every merge"
 )
+SCALE_LANE = 'bands of 65, 130 and 257 channels (BFS over all compositions of 7 (10) samples, all merges of 6 (8)); merges of 300 000, 3 000 000 and 5 000 000 samples'
 ASSUMPTIONS = [
     "tolerance 50*eps32*n relative to the channel's value scale (mean), to the variance (var) and +1e-3 absolute on skewness/kurtosis",
     "skewness/kurtosis are compared only on channels with non-zero variance; constant channels must report var == skew == 0 exactly",
